@@ -154,72 +154,93 @@ def _int_call(value):
     return i, base
 
 
+def _parents(root):
+    par = {}
+    for n in ast.walk(root):
+        for c in ast.iter_child_nodes(n):
+            par[c] = n
+    return par
+
+
+def _sets_hit(h):
+    return any(isinstance(x, ast.Assign) and extract.dotted(x.targets[0]) == "hit_enoent"
+               and extract.const(x.value) is True for x in ast.walk(h))
+
+
+def _guard_classes(node, par, stop):
+    """exception classes of every enclosing `try` (node inside its *body*) whose handler sets
+    hit_enoent; position-independent, so a restructured loop is still read correctly"""
+    classes = []
+    cur = node
+    while cur is not stop and cur in par:
+        p = par[cur]
+        if isinstance(p, ast.Try) and any(cur is b or _contains(b, cur) for b in p.body):
+            for h in p.handlers:
+                if _sets_hit(h):
+                    classes += _handler_classes(h)
+        cur = p
+    return classes
+
+
+def _contains(root, node):
+    return any(n is node for n in ast.walk(root))
+
+
 def open_files_facts(tree):
     fn = extract.find_def(tree, "open_files", cls="Process")
     loops = [s for s in fn.body if isinstance(s, ast.For)]
     if len(loops) != 1:
         raise NotRecognised("open_files: one for loop expected")
     loop = loops[0]
-    tries = [s for s in loop.body if isinstance(s, ast.Try)]
-    if len(tries) != 1:
-        raise NotRecognised("open_files: one try in the loop expected")
-    tr = tries[0]
-    if not (len(tr.body) == 1 and isinstance(tr.body[0], ast.Assign)
-            and extract.dotted(tr.body[0].value.func) == "readlink"):
+    par = _parents(loop)
+    # path = readlink(file)
+    rl = [n for n in ast.walk(loop) if isinstance(n, ast.Assign) and isinstance(n.value, ast.Call)
+          and extract.dotted(n.value.func) == "readlink" and extract.dotted(n.targets[0]) == "path"]
+    if len(rl) != 1:
         raise NotRecognised("open_files: path = readlink(file)")
-    link_gone = None
-    for h in tr.handlers:
-        sets = any(isinstance(x, ast.Assign) and extract.dotted(x.targets[0]) == "hit_enoent"
-                   and extract.const(x.value) is True for x in h.body)
-        if sets:
-            if link_gone is not None:
-                raise NotRecognised("two handlers set hit_enoent")
-            link_gone = _handler_classes(h)
-            if not any(isinstance(x, ast.Continue) for x in h.body):
-                raise NotRecognised("hit_enoent handler does not `continue`")
-    if link_gone is None:
-        link_gone = []
-    # else: if path.startswith('/') and isfile_strict(path):
-    if not (len(tr.orelse) == 1 and isinstance(tr.orelse[0], ast.If)):
-        raise NotRecognised("open_files: else-branch shape")
-    cond = tr.orelse[0]
-    t = cond.test
-    if not (isinstance(t, ast.BoolOp) and isinstance(t.op, ast.And) and len(t.values) == 2
-            and isinstance(t.values[0], ast.Call) and extract.dotted(t.values[0].func) == "path.startswith"
-            and isinstance(t.values[1], ast.Call) and extract.dotted(t.values[1].func) == "isfile_strict"
-            and not cond.orelse):
+    link_gone = _guard_classes(rl[0], par, loop)
+    # path.startswith('/') ... isfile_strict(path)
+    sw = [n for n in ast.walk(loop) if isinstance(n, ast.Call) and extract.dotted(n.func) == "path.startswith"]
+    isf = [n for n in ast.walk(loop) if isinstance(n, ast.Call) and extract.dotted(n.func) == "isfile_strict"]
+    if len(sw) != 1 or len(isf) != 1:
         raise NotRecognised("open_files: `path.startswith('/') and isfile_strict(path)`")
-    prefix = _text(t.values[0].args[0])
-    tries2 = [s for s in cond.body if isinstance(s, ast.Try)]
-    if len(tries2) != 1:
-        raise NotRecognised("open_files: fdinfo try")
-    t2 = tries2[0]
-    if not (len(t2.body) == 1 and isinstance(t2.body[0], ast.With)):
-        raise NotRecognised("open_files: with open_binary(file)")
-    w = t2.body[0]
-    if not (len(w.body) == 2 and all(isinstance(s, ast.Assign) for s in w.body)
-            and extract.dotted(w.body[0].targets[0]) == "pos" and extract.dotted(w.body[1].targets[0]) == "flags"):
+    bo = par.get(sw[0])
+    if not (isinstance(bo, ast.BoolOp) and isinstance(bo.op, ast.And) and bo.values[0] is sw[0] and bo.values[1] is isf[0]):
+        raise NotRecognised("open_files: startswith/isfile_strict are not `a and b`")
+    prefix = _text(sw[0].args[0])
+    # open_binary(file) and the two reads
+    ob = [n for n in ast.walk(loop) if isinstance(n, ast.Call) and extract.dotted(n.func) == "open_binary"]
+    if len(ob) != 1:
+        raise NotRecognised("open_files: open_binary(file)")
+    reads = {}
+    for n in ast.walk(loop):
+        if isinstance(n, ast.Assign) and extract.dotted(n.targets[0]) in ("pos", "flags") \
+                and isinstance(n.value, ast.Call) and extract.dotted(n.value.func) == "int":
+            nm = extract.dotted(n.targets[0])
+            if nm in reads:
+                raise NotRecognised("open_files: two assignments to %s" % nm)
+            reads[nm] = n
+    if set(reads) != {"pos", "flags"}:
         raise NotRecognised("open_files: pos/flags assignments")
-    pos_idx, pos_base = _int_call(w.body[0].value)
-    fl_idx, fl_base = _int_call(w.body[1].value)
-    info_gone = []
-    for h in t2.handlers:
-        if any(isinstance(x, ast.Assign) and extract.dotted(x.targets[0]) == "hit_enoent"
-               and extract.const(x.value) is True for x in h.body):
-            info_gone += _handler_classes(h)
-    # popenfile(path, int(fd), int(pos), mode, flags) in the else
-    calls = extract.calls_in(ast.Module(body=t2.orelse, type_ignores=[]), "popenfile")
+    if not (reads["pos"].lineno < reads["flags"].lineno):
+        raise NotRecognised("open_files: flags read before pos")
+    pos_idx, pos_base = _int_call(reads["pos"].value)
+    fl_idx, fl_base = _int_call(reads["flags"].value)
+    info_gone = _guard_classes(ob[0], par, loop)
+    g1 = _guard_classes(reads["pos"], par, loop)
+    g2 = _guard_classes(reads["flags"], par, loop)
+    read_gone = [c for c in g1 if c in g2]          # a class guards "the reads" only if it guards both
+    calls = [n for n in ast.walk(loop) if isinstance(n, ast.Call) and extract.dotted(n.func) == "popenfile"]
     if len(calls) != 1 or [ast.unparse(a) for a in calls[0].args] != ["path", "int(fd)", "int(pos)", "mode", "flags"]:
         raise NotRecognised("open_files: popenfile(path, int(fd), int(pos), mode, flags)")
-    # after the loop: if hit_enoent: self._raise_if_not_alive()
     final = False
     after = fn.body[fn.body.index(loop) + 1:]
     for s in after:
         if isinstance(s, ast.If) and extract.dotted(s.test) == "hit_enoent" \
                 and extract.calls_in(s, "_raise_if_not_alive"):
             final = True
-    return {"link_gone": link_gone, "info_gone": info_gone, "prefix": prefix, "pos": (pos_idx, pos_base),
-            "flags": (fl_idx, fl_base), "final": final}
+    return {"link_gone": link_gone, "info_gone": info_gone, "read_gone": read_gone, "prefix": prefix,
+            "pos": (pos_idx, pos_base), "flags": (fl_idx, fl_base), "final": final}
 
 
 def _find_method_anywhere(tree, cls, name):
@@ -339,9 +360,13 @@ def facts(snap, F):
     F.try_add("linkGoneEsrch", "Bool", lambda: has(o()["link_gone"], "ProcessLookupError"),
               "ESRCH from readlink sets hit_enoent and continues")
     F.try_add("infoGoneEnoent", "Bool", lambda: has(o()["info_gone"], "FileNotFoundError"),
-              "ENOENT while reading fdinfo sets hit_enoent")
+              "ENOENT from opening fdinfo sets hit_enoent")
     F.try_add("infoGoneEsrch", "Bool", lambda: has(o()["info_gone"], "ProcessLookupError"),
-              "ESRCH while reading fdinfo sets hit_enoent")
+              "ESRCH from opening fdinfo sets hit_enoent")
+    F.try_add("infoReadGoneEnoent", "Bool", lambda: has(o()["read_gone"], "FileNotFoundError"),
+              "ENOENT raised by the two f.readline() of an already opened fdinfo file sets hit_enoent")
+    F.try_add("infoReadGoneEsrch", "Bool", lambda: has(o()["read_gone"], "ProcessLookupError"),
+              "ESRCH raised by the two f.readline() of an already opened fdinfo file sets hit_enoent")
     F.try_add("finalAliveCheck", "Bool", lambda: lean_bool(o()["final"]),
               "`if hit_enoent: self._raise_if_not_alive()` follows the loop")
     F.try_add("ioSep", "List Nat", lambda: lean_bytes(i()["sep"]), "separator of line.split() in io_counters")
